@@ -305,6 +305,26 @@ theorem newRound_clears_round_state :
     "b.NewRound(true)" ∈ src_NewHeight_stmts := by
   decide
 
+/-- **Forwarding the lock does not touch it.** `StartElectionVotePhase` hands `b.HighQC` itself (the object, with the block
+    and results it certifies) to the leader as `HighQc`; it assigns nothing but the proposer it votes for and its VDF, and
+    everything it calls is one of: candidate lookup, leader selection, the VDF service, a copy of the view, the send. None
+    of these reaches a certificate the replica stores — the lock aliases the `Qc` of the stored PRECOMMIT message, so
+    anything that rewrites stored certificates in place here would strip the lock of its proposal, and every leader drops
+    an ELECTION_VOTE whose `HighQc` has no block (`highQcMissingProposal`): `exec_leader_hears_lock` needs this frame.
+    The per-replica model's ELECTION_VOTE step (`electionVote_step_keeps_lock`) changes the phase only. -/
+theorem electionVote_phase_leaves_lock_alone :
+    src_StartElectionVotePhase_highQc = ["b.HighQC"] ∧
+    (∀ a ∈ src_StartElectionVotePhase_assigns, a ∈ ["candidates", "b.ProposerKey", "b.HighVDF"]) ∧
+    (∀ c ∈ src_StartElectionVotePhase_calls, c ∈ ["b.GetElectionCandidates", "len", "SelectProposerFromCandidates",
+      "func(...){b.ProposerKey = nil}", "b.SelfIsProposer", "b.VDFService.Finish", "b.SendToProposer", "b.View.Copy"]) := by
+  decide +kernel
+
+theorem electionVote_step_keeps_lock (s s' : Rep) (out : String)
+    (hp : s.phase = phase_ELECTION ∨ s.phase = phase_ELECTION_VOTE) (h : s.phaseStep [] = some (s', out)) :
+    s'.lock = s.lock ∧ s'.blk = s.blk ∧ s'.round = s.round := by
+  unfold Rep.phaseStep at h
+  rcases hp with hp | hp <;> simp [hp] at h <;> (obtain ⟨rfl, _⟩ := h; simp)
+
 /-- **The lock a correct replica reports is accepted.** `CheckHighQC` passes every full PROPOSE_VOTE certificate of the
     current height whose root height is not below the committee's last update — in particular one from exactly that
     root height (a nested chain whose root chain has not advanced since its last commit). `good_leader_commits` needs
